@@ -105,6 +105,26 @@ def make_case(L):
                 sig = "anchor:latex-autoref-without-label:%s" % oname
                 if sig not in seen:
                     seen.add(sig); v.append((sig, "\\autoref{%s} but labels are %r" % (r.decode("utf-8", "replace"), sorted(labels)[:10]), dict(src=doc.decode("latin-1"), options=oname, ext=ext)))
+        # EPUB: the navigation document's links must resolve inside main.xhtml (one wrapper is enough: the nav is built from the headings)
+        if wname == "para" and L <= 2:
+            import io, zipfile
+            try:
+                z = zipfile.ZipFile(io.BytesIO(mmd.convert_to_data(doc, ext, 1, 0, None)))
+                nav = z.read("OEBPS/nav.xhtml"); main = z.read("OEBPS/main.xhtml")
+                mids = set(re.findall(rb'\bid="([^"]*)"', main)); heads = {m.group(2): re.sub(rb"<[^>]*>", b"", m.group(3)).strip() for m in re.finditer(rb'<h([1-6]) id="([^"]*)"[^>]*>(.*?)</h\1>', main, re.S)}
+                lm = re.search(rb'href="main.xhtml#lbl"', nav)
+                for m in re.finditer(rb'<a href="main\.xhtml#([^"]*)">(.*?)</a>', nav, re.S):
+                    target, text = m.group(1), re.sub(rb"<[^>]*>", b"", m.group(2)).strip()
+                    after_manual = oname == "random-labels" and lm is not None and m.start() > lm.start()
+                    bad = None
+                    if target not in mids: bad = "epub-nav-entry-dangling"
+                    elif target in heads and heads[target] != text: bad = "epub-nav-entry-wrong-target"
+                    if bad:
+                        sig = "anchor:%s:%s" % ("toc-entry-dangling" if (after_manual or (oname == "no-labels" and bad == "epub-nav-entry-dangling")) else bad, oname)      # the recorded TOC findings have the same cause in the EPUB navigation document
+                        if sig not in seen:
+                            seen.add(sig); v.append((sig, "EPUB nav entry %r links to main.xhtml#%s (ids in main.xhtml: %r)" % (text.decode("utf-8", "replace"), target.decode("utf-8", "replace"), sorted(mids)[:10]), dict(src=doc.decode("latin-1"), options=oname, ext=ext, format="epub")))
+            except (zipfile.BadZipFile, KeyError) as e:
+                v.append(("anchor:epub-unreadable:%s" % oname, "EPUB could not be read: %s" % e, dict(src=doc.decode("latin-1"), options=oname, ext=ext)))
         return (pmap.h64(out), v, dict(judged=1))
     return case, n ** L * len(WRAP) * len(OPTS)
 
@@ -112,7 +132,7 @@ def run(tier):
     rep = core.Report("C10", tier, "exploration")
     rep.rule = ("all sequences up to the level's length over %d reference fragments (footnote/citation/glossary/abbreviation calls incl. repeated, inline, 'not cited', with locator; cross references to ATX, closed ATX, Setext, "
                 "manually labelled, duplicate-title, punctuation/Unicode-title headings and a captioned table) in 5 wrappers x {default, random footnotes, random labels, no labels, base header level 2/3}; the fixed tail defines every note "
-                "and heading; oracle on the HTML: call targets exist, entries in first-use order numbered 1..n (or consistently renamed), back link = id of the first call, every cross reference / TOC link resolves; "
+                "and heading; oracle on the HTML: call targets exist, entries in first-use order numbered 1..n (or consistently renamed), back link = id of the first call, every cross reference / TOC link resolves and points at the heading it names; EPUB navigation entries resolve inside main.xhtml; "
                 "LaTeX: every \\autoref has a \\label; distinct = distinct HTML outputs" % len(F))
     rep.assumptions = ["ids need not be unique (two headings with the same title share an id by design)", "an unresolved reference left as literal text is not judged", "libc rand() is seeded by the harness before each conversion"]
     mmd.so_path(); dl = core.deadline_s(tier)
